@@ -20,6 +20,10 @@ macro_rules! props {
 props! {
     c01 => "C01",
     c02 => "C02",
+    c03 => "C03",
+    c04 => "C04",
+    c07 => "C07",
+    c08 => "C08",
     c31 => "C31",
 }
 
@@ -27,6 +31,7 @@ props! {
 pub fn internal(cmd: &str, args: &[String]) -> i32 {
     match cmd {
         "__iql" => scratch_iql(&args[0]),
+        "__c07" => c07::child_main(),
         _ => {
             eprintln!("unknown internal command");
             2
@@ -60,10 +65,13 @@ fn scratch_iql(path: &str) -> i32 {
     for m in masks {
         let mut e = inputlayer::IQLEngine::with_config(crate::common::eng::opt_config(m));
         e.set_num_workers(workers);
+        if let Some(n) = std::env::var("VERIF_MAXROWS").ok().and_then(|w| w.parse().ok()) {
+            e.set_max_result_rows(n);
+        }
         for (r, rows) in &edb {
             e.add_tuples(r, rows.clone());
         }
-        let r = e.execute_tuples(&prog);
+        let (r, _) = crate::common::eng::with_watchdog(20, || e.execute_tuples(&prog));
         if std::env::var("VERIF_SHOW_IR").is_ok() {
             for n in e.ir_nodes() {
                 println!("  IR: {n:?}");
